@@ -52,17 +52,21 @@ Reading of the statement (clauses; recorded in the final report):
          before the loop next BLOCKS, i.e. calls its primitive with timeout None or > thr ("before the
          loop next goes quiescent").  Idle callbacks registered later, or removed meanwhile, are not
          required.  An idle callback is never entered while not registered (after removal).
- exc     after a callback raised, no further callback is entered (strict=True: virtual loops; for real
-         loops callbacks of the same pass are tolerated, but no callback may be entered once the
-         loop has blocked again -- in particular the harness's late stop alarm); ExitMainLoop -> run() returns; otherwise run()
-         raises that very exception object; a later run() does not raise it again; run() neither
-         returns nor raises without a callback having raised, and raises nothing no callback raised.
+ exc     "an exception raised in any callback stops the loop": after a callback raised, no further
+         callback is entered (strict=True: virtual loops; for real loops callbacks of the same pass are
+         tolerated, but no callback may be entered once the loop has blocked again -- in particular
+         the harness's late stop alarm), the loop does not block again, and run() ends.
+ reraise "silently for ExitMainLoop, re-raised from run() exactly once otherwise": ExitMainLoop ->
+         run() returns; otherwise run() raises that very exception object; a later run() does not
+         raise it again; run() neither returns nor raises without a callback having raised, and raises
+         nothing no callback raised.  (Kept apart from `exc` so that "the loop did not stop" and "the
+         loop stopped but run() ended the wrong way" are reported by different checks.)
 """
 from __future__ import annotations
 
 from collections import defaultdict
 
-CLAUSES = ("alarm", "remove", "watch", "idle", "exc")
+CLAUSES = ("alarm", "remove", "watch", "idle", "exc", "reraise")
 
 
 def _pipe_of(wid):
@@ -94,7 +98,7 @@ def judge(trace, thr=0.0, tol=0.0, strict=True, have_ready=True, rerun_exc_only=
     mute = [False]
 
     def v(c, i, msg):
-        if mute[0] and c != "exc":
+        if mute[0] and c not in ("exc", "reraise"):
             return
         if len(viol[c]) < 6:
             viol[c].append(f"event {i}: {msg}")
@@ -251,19 +255,20 @@ def judge(trace, thr=0.0, tol=0.0, strict=True, have_ready=True, rerun_exc_only=
         elif k == "end":
             how = ev[2]
             nonexit = [x for x in raised if not x.startswith("exit#")]
+            if raised or how.startswith("raise"):
+                used["reraise"] = True
             if how.startswith("abort"):
                 used["exc"] = True
                 v("exc", i, f"run() did not finish: {how}")
             elif not raised:
                 if how == "return":
-                    v("exc", i, "run() returned although no callback raised ExitMainLoop")
+                    v("reraise", i, "run() returned although no callback raised ExitMainLoop")
                 elif how.startswith("raise"):
                     lab = how.split(":", 1)[1]
-                    used["exc"] = True
                     if lab in past:
-                        v("exc", i, f"run() raised {lab} again: it was raised by a callback of an earlier run and already re-raised once")
+                        v("reraise", i, f"run() raised {lab} again: it was raised by a callback of an earlier run and already re-raised once")
                     else:
-                        v("exc", i, f"run() ended with {how} although no callback raised")
+                        v("reraise", i, f"run() ended with {how} although no callback raised")
             else:
                 first = raised[0]
                 if how == "stop":
@@ -271,14 +276,14 @@ def judge(trace, thr=0.0, tol=0.0, strict=True, have_ready=True, rerun_exc_only=
                 elif len(raised) == 1:
                     if first.startswith("exit#"):
                         if how != "return":
-                            v("exc", i, f"a callback raised ExitMainLoop but run() ended with {how}")
+                            v("reraise", i, f"a callback raised ExitMainLoop but run() ended with {how}")
                     elif how != "raise:" + first:
-                        v("exc", i, f"a callback raised {first} but run() ended with {how}")
+                        v("reraise", i, f"a callback raised {first} but run() ended with {how}")
                 else:  # several callbacks of one pass raised (real loops only): any of them is accepted
                     ok = (how == "return" and len(nonexit) < len(raised)) or (how.startswith("raise:") and how[6:] in nonexit)
                     if how.startswith("raise-group:"):
                         ok = set(how[12:].split(",")) <= set(raised)
                         notes.append(f"run() raised an exception group of {how[12:]}")
                     if not ok:
-                        v("exc", i, f"callbacks raised {raised} but run() ended with {how}")
+                        v("reraise", i, f"callbacks raised {raised} but run() ended with {how}")
     return {"viol": viol, "used": used, "notes": notes}
